@@ -119,11 +119,6 @@ class Walker:
             if k in _SKIP_ATTRS:
                 continue
             v = d[k]
-            if k == "next_steps" and isinstance(v, list):
-                try:
-                    v = sorted(v)
-                except Exception:  # noqa: BLE001
-                    pass
             items.append((k, self.visit(v, depth + 1)))
         return ("obj", tn, tuple(items))
 
